@@ -212,6 +212,9 @@ def visitor_table(ctx: Ctx, I: Interp) -> None:
         class _A:  # minimal stand-in with the fields used below
             def __init__(self, lst: Any, val: Any):
                 self.target, self.value, self.key = lst, [val], "append"
+
+            def __repr__(self) -> str:
+                return f"store {short(self.value[0])}"
         for nm_, lst in env.items():
             if isinstance(lst, SList) and lst.mode == "concrete":
                 for it_ in lst.items:
@@ -402,7 +405,7 @@ def render_table(ctx: Ctx, I: Interp) -> None:
         for k in sorted(x.kinds):
             if k in META_KINDS:
                 seen.add(k)
-                ctx.check(l.kind == "return" and (v == "" or (isinstance(v, SStr) and not v.frags)), "C20.js", f"a {k} node contributes no JavaScript", where,
+                ctx.check(l.kind == "return" and (v == "" or (isinstance(v, SStr) and not v.frags)), "C20.meta", f"a {k} node contributes no JavaScript", where,
                           f"{k} -> {short(v)}", f"a metadata node of kind {k} is written into the React expression as {short(v)}")
             elif k in ("STR", "JSXEXPR"):
                 seen.add(k)
@@ -468,7 +471,7 @@ def render_table(ctx: Ctx, I: Interp) -> None:
                 found.add("children")
                 rr = [c for c in calls if c.target.qual == "_render_react_js"]
                 if isinstance(el, SObj) and el.kinds and el.kinds <= META_KINDS and not rr and l.kind in ("fall", "continue"):
-                    ctx.ok("C20.js", "a metadata child is skipped (it contributes no JavaScript)")
+                    ctx.ok("C20.meta", "a metadata child is skipped (it contributes no JavaScript)")
                     continue
                 am = _argmap(ps, rr[0].value, (rr[0].extra or {}).get("kwargs")) if len(rr) == 1 else {}
                 ok = len(rr) == 1 and am.get(ps[0]) is el and l.kind in ("fall", "continue")
@@ -546,7 +549,7 @@ def render_table(ctx: Ctx, I: Interp) -> None:
                           "a child of a tag/component is not rendered exactly once by the recursive call: children are dropped, duplicated or cut short")
                 pk = m_.__dict__.get("pass_kinds")
                 leak = sorted(set(pk if pk is not None else META_KINDS) & set(META_KINDS))
-                ctx.check(not leak, "C20.js", "metadata children are left out of the child expressions", where, f"kinds passing the filter include {leak}",
+                ctx.check(not leak, "C20.meta", "metadata children are left out of the child expressions", where, f"kinds passing the filter include {leak}",
                           f"a metadata child of kind {leak} is kept in the list of child expressions: its empty rendering is joined in with a separator "
                           f"(a stray ', ' entry in React.createElement)", witness="Foo(MetadataNode(), 'a')")
     found |= found_comp
